@@ -24,7 +24,11 @@ VARIABLES E, wl, phase
 vars == <<E, wl, phase>>
 
 EdgeIds == {"f_direct", "f_list", "f_map_nullable", "parent", "subtypes", "f_alias", "doc_type", "doc_field",
-            "doc_route_on_type", "cross_ns", "tag_default", "doc_route_on_route", "ns_doc", "route_err"}
+            "doc_route_on_type", "cross_ns", "tag_default", "doc_route_on_route", "ns_doc", "route_err",
+            \* not a dependency edge but a way of writing the route signatures: r3, r4 and q1 name their type inside
+            \* Map(String, .), List(Map(String, .)) and List(.)? as RESULT instead of naming it as argument.  Edges does
+            \* not mention it: wrapping a type in containers does not change what a route depends on.
+            "io_wrapped"}
 
 Types  == {"S1", "S2", "S3", "S4", "S5", "S6", "S7", "S8", "U1", "T1"}
 NsOf(n) == IF n \in {"T1", "q1"} THEN "nsb" ELSE "nsa"
